@@ -477,8 +477,10 @@ impl Model {
                             v.push(Viol { prop: "C03", what: format!("LST total moved {} -> {} but {total_minted} was minted", pre.l, post.l) });
                         }
                         let recipient = mint_to.clone().unwrap_or_else(|| op_sender.clone());
-                        let is_proto = matches!(prim::bech32_decode(&recipient), Some((h, _, _)) if h == sc.cfg_prefix(pre));
-                        let is_native = matches!(prim::bech32_decode(&recipient), Some((h, _, _)) if h == sc.cfg_native_prefix(pre));
+                        // (a prefix names its chain in either spelling: bech32 is case-insensitive, and the configuration may
+                        // have been given in capitals)
+                        let is_proto = matches!(prim::bech32_decode(&recipient), Some((h, _, _)) if h.to_lowercase() == sc.cfg_prefix(pre).to_lowercase());
+                        let is_native = matches!(prim::bech32_decode(&recipient), Some((h, _, _)) if h.to_lowercase() == sc.cfg_native_prefix(pre).to_lowercase());
                         let to_native = if is_proto && is_native { flag } else { is_native };
                         if mint_to.is_none() && !plain_sender {
                             v.push(Viol { prop: "C03", what: "stake from a non-plain account without mint_to succeeded".into() });
